@@ -1,7 +1,7 @@
 SPECIFICATION Spec
 CONSTANTS NU = 1  NG = 2  NC = 0  MaxOps = 3  Spurious = TRUE
   Amts <- A1  Ops <- OpsO  KickSets <- KS1
-  ClearAtomic = TRUE  LogAtomic = TRUE  KickConsume = TRUE  OfflineOnVeto = TRUE  CloseOnLateVeto = TRUE  OnlineFloor = FALSE
+  ClearAtomic = TRUE  LogAtomic = TRUE  KickConsume = TRUE  OfflineOnVeto = TRUE  CloseOnLateVeto = TRUE  AuthAtomic = TRUE  OnlineFloor = FALSE
 INVARIANT NoViolation
 VIEW View
 CHECK_DEADLOCK FALSE
